@@ -9,6 +9,9 @@ package builder
 //@ spec allocOf(v)  = ite(v == "Win32", 1, ite(v == "Native/Syscall", 2, 0))
 //@ spec techOf(v)   = ite(v == "Foliage", SLEEPOBF_FOLIAGE, ite(v == "Ekko", SLEEPOBF_EKKO, ite(v == "Zilean", SLEEPOBF_ZILEAN, SLEEPOBF_NO_OBF)))
 //@ spec gadgetOf(t, v) = ite(t == SLEEPOBF_NO_OBF, SLEEPOBF_BYPASS_NONE, ite(v == "jmp rax", SLEEPOBF_BYPASS_JMPRAX, ite(v == "jmp rbx", SLEEPOBF_BYPASS_JMPRBX, SLEEPOBF_BYPASS_NONE)))
+//@ spec proxyOf(v) = ite(v == "RtlRegisterWait", PROXYLOADING_RTLREGISTERWAIT, ite(v == "RtlCreateTimer", PROXYLOADING_RTLCREATETIMER, ite(v == "RtlQueueWorkItem", PROXYLOADING_RTLQUEUEWORKITEM, PROXYLOADING_NONE)))
+//@ spec amsiOf(v) = ite(v == "Hardware breakpoints", AMSIETW_PATCH_HWBP, AMSIETW_PATCH_NONE)
+//@ spec cfgBool(b, k) = typeis(b.config.Config[k], bool) && unboxed(b.config.Config[k], bool)
 //@ spec cfgStr(b, k) = unboxed(b.config.Config[k], string)
 //@ spec injStr(b, k) = unboxed(unboxed(b.config.Config["Injection"], map[string]any)[k], string)
 //@ spec nf(p) = ghostint(p, "fields")
@@ -21,7 +24,7 @@ package builder
 //@ func (b *Builder) PatchConfig() (r []byte, err error)
 //@   requires nonnil: b != nil
 //@   modifies *
-//@   guard-call ints: "AddInt" nf(arg(0)) < 12 ==> ((nf(arg(0)) == 0 && arg(1) == ConfigSleep) || (nf(arg(0)) == 1 && arg(1) == ConfigJitter) || (nf(arg(0)) == 2 && arg(1) == allocOf(injStr(b, "Alloc"))) || (nf(arg(0)) == 3 && arg(1) == allocOf(injStr(b, "Execute"))) || (nf(arg(0)) == 6 && arg(1) == techOf(cfgStr(b, "Sleep Technique"))) || (nf(arg(0)) == 7 && arg(1) == gadgetOf(techOf(cfgStr(b, "Sleep Technique")), cfgStr(b, "Sleep Jmp Gadget"))) || (nf(arg(0)) == 8 && arg(1) == ConfigStackSpoof) || (nf(arg(0)) == 9 && arg(1) == ConfigProxyLoading) || (nf(arg(0)) == 10 && arg(1) == ConfigSyscall) || (nf(arg(0)) == 11 && arg(1) == ConfigAmsiPatch))
+//@   guard-call ints: "AddInt" nf(arg(0)) < 12 ==> ((nf(arg(0)) == 0 && arg(1) == ConfigSleep) || (nf(arg(0)) == 1 && arg(1) == ConfigJitter) || (nf(arg(0)) == 2 && arg(1) == allocOf(injStr(b, "Alloc"))) || (nf(arg(0)) == 3 && arg(1) == allocOf(injStr(b, "Execute"))) || (nf(arg(0)) == 6 && arg(1) == techOf(cfgStr(b, "Sleep Technique"))) || (nf(arg(0)) == 7 && arg(1) == gadgetOf(techOf(cfgStr(b, "Sleep Technique")), cfgStr(b, "Sleep Jmp Gadget"))) || (nf(arg(0)) == 8 && arg(1) == ite(techOf(cfgStr(b, "Sleep Technique")) != SLEEPOBF_NO_OBF && cfgBool(b, "Stack Duplication"), win32.TRUE, win32.FALSE)) || (nf(arg(0)) == 9 && arg(1) == proxyOf(cfgStr(b, "Proxy Loading"))) || (nf(arg(0)) == 10 && arg(1) == ite(cfgBool(b, "Indirect Syscall"), win32.TRUE, win32.FALSE)) || (nf(arg(0)) == 11 && arg(1) == amsiOf(cfgStr(b, "Amsi/Etw Patch"))))
 //@   guard-call strs: "AddWString" nf(arg(0)) < 12 ==> ((nf(arg(0)) == 4 && arg(1) == injStr(b, "Spawn64")) || (nf(arg(0)) == 5 && arg(1) == injStr(b, "Spawn32")))
 //@   guard-call wide: "AddInt64" nf(arg(0)) == 12 || nf(arg(0)) == 13
 //@   guard-call hours: "AddInt32" nf(arg(0)) >= 13 && arg(1) == WorkingHours
